@@ -31,7 +31,9 @@ func H_IdInRange_Total() {
 func pureIsDigit(c rune) bool { return c >= '0' && c <= '9' }
 
 // refNumber: the documented numeric form
-//   [+-]? D+ (\. D+)? ( ([eE][+-] | \*(10)?\^ [+-]?) D+ )?
+//
+//	[+-]? D+ (\. D+)? ( ([eE][+-] | \*(10)?\^ [+-]?) D+ )?
+//
 // returns (isNumber, startsLikeNumber, normalised decimal text for strconv).
 func refNumber(s []rune) (bool, bool, []rune) {
 	i := 0
